@@ -21,14 +21,30 @@ import anyio, itertools, functools, asyncio, operator
 import anyio.itertools as ai, anyio.functools as af
 from itertools import product as P
 
+class Hang(Exception):
+    """a generator that spins without producing anything (not even a checkpoint) within the time limit"""
+
+
+def _alarm(signum, frame):
+    raise Hang()
+
+
 async def drain(agen, limit=30):
+    import signal
+
     out=[]
+    signal.signal(signal.SIGALRM, _alarm)
+    signal.setitimer(signal.ITIMER_REAL, 15.0)
     try:
         async for x in agen:
             out.append(x)
             if len(out)>=limit: break
+    except Hang:
+        return ('HANG', out)
     except Exception as e:
         return ('EXC', type(e).__name__, out)
+    finally:
+        signal.setitimer(signal.ITIMER_REAL, 0)
     return ('OK', out)
 def sdrain(fn, limit=30):
     out=[]
@@ -165,7 +181,53 @@ async def extra(dis):
                 got = (["raised " + type(e).__name__], got[1])
             if got[0] != xs or got[1] != xs or pulls != xs:
                 dis.append(("tee", pattern, xs, "async", (got, pulls), (xs, xs)))
-                return
+                break
+        else:
+            continue
+        break
+    await tee_concurrent(dis)
+
+
+async def tee_concurrent(dis):
+    """tee iterators consumed by concurrent tasks (the lock is contended): every consumer sees the whole source, the
+    source is pulled once per element"""
+    for n in range(0, 7):
+        for consumers in (2, 3):
+            for mode in ("sync", "async", "async-slow"):
+                xs = list(range(10, 10 + n))
+                pulls = []
+
+                def sgen():
+                    for x in xs:
+                        pulls.append(x)
+                        yield x
+
+                async def agen():
+                    for x in xs:
+                        if mode == "async-slow":
+                            await anyio.sleep(0)
+                        pulls.append(x)
+                        yield x
+
+                got = [[] for _ in range(consumers)]
+                try:
+                    its = ai.tee(sgen() if mode == "sync" else agen(), consumers)
+
+                    async def consume(i):
+                        async for x in its[i]:
+                            got[i].append(x)
+                            if len(got[i]) > n + 1:
+                                return
+
+                    with anyio.fail_after(20):
+                        async with anyio.create_task_group() as tg:
+                            for i in range(consumers):
+                                tg.start_soon(consume, i)
+                except BaseException as e:  # noqa: BLE001
+                    got[0] = ["raised " + type(e).__name__]
+                if any(g != xs for g in got) or pulls != xs:
+                    dis.append(("tee_concurrent", (consumers,), xs, mode, (got, pulls), ([xs] * consumers, xs)))
+                    return
 
 
 def main_cli(argv):
